@@ -132,7 +132,7 @@ def _drop_zeros(ctx, rep, cl, body4):
                witness=d.shortest(1)[0] if not d.is_empty() else None, key=cl + ".ipv4-parse-total|_DROP_ZEROS_PATTERN")
 
 
-def _ipv6(ctx, rep, cl, thorough=False):
+def _ipv6(ctx, rep, cl, thorough=False, parse_only=False):
     r6 = _pattern(ctx, IPMOD, "IPv6_PATTERN")
     loc = "netconan/ip_anonymization.py (IPv6_PATTERN)"
     try:
@@ -204,6 +204,8 @@ def _ipv6(ctx, rep, cl, thorough=False):
                witness=w[0] if w else None, key="%s.ipv6-selected-parseable|alt:%s" % (cl, _alt_id(alts[i])))
     rep.stat("ipv6_selectable_alternatives", [i for i, s in enumerate(selectable) if s])
     rep.note("IPv6 alternatives that can never be selected (an earlier alternative always commits first): %s" % [i for i, s in enumerate(selectable) if not s])
+    if parse_only:
+        return r6, alts, alpha, D
     # clause 5: IPv4-tailed addresses replaced as a whole
     ALL = None
     for d in D:
